@@ -61,6 +61,9 @@ type DiffItem struct {
 	// InWKT: the difference lies inside a google.protobuf.* (well-known type) sub-message, which csproto
 	// delegates to the owning runtime's own codec
 	InWKT bool
+	// Foreign: the difference lies inside a sub-message declared in another file than the compared root message,
+	// i.e. of a type without generated fast methods that the owning runtime's own codec decodes and encodes
+	Foreign bool
 }
 
 func (d DiffItem) String() string { return d.Kind + "@" + d.Shape }
@@ -68,7 +71,7 @@ func (d DiffItem) String() string { return d.Kind + "@" + d.Shape }
 // Diff itemises the differences between want and got (same descriptor).
 func Diff(want, got protoreflect.Message) []DiffItem {
 	var out []DiffItem
-	diffMsg("", want, got, &out, 0)
+	diffMsg("", want, got, &out, 0, want.Descriptor().ParentFile())
 	return out
 }
 
@@ -113,7 +116,15 @@ func fieldsOfBoth(a, b protoreflect.Message) []protoreflect.FieldDescriptor {
 	return out
 }
 
-func diffMsg(path string, want, got protoreflect.Message, out *[]DiffItem, depth int) {
+func diffMsg(path string, want, got protoreflect.Message, out *[]DiffItem, depth int, root protoreflect.FileDescriptor) {
+	if root != nil && want.Descriptor().ParentFile() != nil && want.Descriptor().ParentFile().Path() != root.Path() && !isWKT(want) {
+		n := len(*out)
+		defer func() {
+			for i := n; i < len(*out); i++ {
+				(*out)[i].Foreign = true
+			}
+		}()
+	}
 	if isWKT(want) {
 		n := len(*out)
 		defer func() {
@@ -149,7 +160,7 @@ func diffMsg(path string, want, got protoreflect.Message, out *[]DiffItem, depth
 				}
 				if fd.MapValue().Kind() == protoreflect.MessageKind {
 					if depth < 6 {
-						diffMsg(p+"["+k.String()+"].", v.Message(), gm.Get(k).Message(), out, depth+1)
+						diffMsg(p+"["+k.String()+"].", v.Message(), gm.Get(k).Message(), out, depth+1, root)
 					}
 				} else if valueBytes(fd.MapValue(), v) != valueBytes(fd.MapValue(), gm.Get(k)) {
 					*out = append(*out, DiffItem{Path: p + "[" + k.String() + "]", Shape: sh, Kind: "value-changed"})
@@ -165,7 +176,7 @@ func diffMsg(path string, want, got protoreflect.Message, out *[]DiffItem, depth
 			for i := 0; i < wl.Len(); i++ {
 				if fd.Kind() == protoreflect.MessageKind {
 					if depth < 6 {
-						diffMsg(fmt.Sprintf("%s[%d].", p, i), wl.Get(i).Message(), gl.Get(i).Message(), out, depth+1)
+						diffMsg(fmt.Sprintf("%s[%d].", p, i), wl.Get(i).Message(), gl.Get(i).Message(), out, depth+1, root)
 					}
 				} else if valueBytes(fd, wl.Get(i)) != valueBytes(fd, gl.Get(i)) {
 					*out = append(*out, DiffItem{Path: fmt.Sprintf("%s[%d]", p, i), Shape: sh, Kind: "value-changed"})
@@ -174,7 +185,7 @@ func diffMsg(path string, want, got protoreflect.Message, out *[]DiffItem, depth
 			}
 		case fd.Kind() == protoreflect.MessageKind || fd.Kind() == protoreflect.GroupKind:
 			if depth < 6 {
-				diffMsg(p+".", wv.Message(), gv.Message(), out, depth+1)
+				diffMsg(p+".", wv.Message(), gv.Message(), out, depth+1, root)
 			}
 		default:
 			if valueBytes(fd, wv) != valueBytes(fd, gv) {
